@@ -12,422 +12,12 @@
 // applies; those rules are the library's own behaviour (Image.hh comments where they exist, the
 // per-pixel statements of Image.cc otherwise - see C07.notes.md) and are only compared for 8-bit
 // channels, where they are well defined.
-#include <stdarg.h>
-#include <string.h>
+#include "C07_ops.hh"
 
-#include <algorithm>
-#include <array>
-#include <set>
-#include <string>
-#include <vector>
-
-#include "Image.hh"
-#include "vf.hh"
-
-using namespace phosg;
-using std::string;
-using std::vector;
-typedef long long ll;
-
-namespace {
-
-struct Px {
-  uint64_t c[4];
-  bool operator==(const Px& o) const { return c[0] == o.c[0] && c[1] == o.c[1] && c[2] == o.c[2] && c[3] == o.c[3]; }
-};
-
-inline uint64_t mask_of(int cw) { return cw == 64 ? ~0ull : ((1ull << cw) - 1); }
-
-struct Model {
-  int w = 0, h = 0, cw = 8;
-  bool alpha = false;
-  vector<Px> p;  // c[3] is kept equal to maxv() when !alpha
-  Model() {}
-  Model(int w_, int h_, bool a_, int cw_ = 8) : w(w_), h(h_), cw(cw_), alpha(a_), p((size_t)w_ * h_, Px{{0, 0, 0, a_ ? 0 : mask_of(cw_)}}) {}
-  uint64_t maxv() const { return mask_of(cw); }
-  bool inside(ll x, ll y) const { return x >= 0 && y >= 0 && x < w && y < h; }
-  const Px& at(ll x, ll y) const { return p[(size_t)y * w + x]; }
-  // what read_pixel reports: alpha is max_value for images without an alpha channel
-  Px read(ll x, ll y) const { return at(x, y); }
-  // what write_pixel stores: samples truncated to the channel width, alpha dropped without a channel
-  void write(ll x, ll y, uint64_t r, uint64_t g, uint64_t b, uint64_t a) {
-    Px& q = p[(size_t)y * w + x];
-    uint64_t m = maxv();
-    q.c[0] = r & m; q.c[1] = g & m; q.c[2] = b & m;
-    if (alpha) q.c[3] = a & m;
-  }
-  size_t raw_size() const { return (size_t)w * h * (3 + alpha) * (cw / 8); }
-  void to_raw(uint8_t* out) const {
-    int nch = 3 + alpha, nb = cw / 8;
-    for (size_t i = 0; i < p.size(); i++)
-      for (int c = 0; c < nch; c++) memcpy(out + (i * nch + c) * nb, &p[i].c[c], nb);
-  }
-  vector<uint8_t> raw() const {
-    vector<uint8_t> v(raw_size());
-    to_raw(v.data());
-    return v;
-  }
-  string dump() const {
-    string s = vf::fmt("%dx%d %s %d-bit [", w, h, alpha ? "rgba" : "rgb", cw);
-    for (int y = 0; y < h; y++) {
-      for (int x = 0; x < w; x++) {
-        const Px& q = at(x, y);
-        s += vf::fmt("%llx.%llx.%llx", (unsigned long long)q.c[0], (unsigned long long)q.c[1], (unsigned long long)q.c[2]);
-        if (alpha) s += vf::fmt(".%llx", (unsigned long long)q.c[3]);
-        s += x + 1 < w ? " " : "";
-      }
-      s += y + 1 < h ? " / " : "";
-    }
-    return s + "]";
-  }
-};
-
-Image make_image(const Model& m) {
-  Image img(m.w, m.h, m.alpha, m.cw);
-  if (img.get_data_size() != m.raw_size()) throw std::logic_error("harness: unexpected Image::get_data_size()");
-  auto r = m.raw();
-  if (!r.empty()) memcpy(img.get_data(), r.data(), r.size());
-  return img;
-}
-
-Model model_of(const Image& img) {
-  Model m(img.get_width(), img.get_height(), img.get_has_alpha(), img.get_channel_width());
-  int nch = 3 + m.alpha, nb = m.cw / 8;
-  const uint8_t* d = (const uint8_t*)img.get_data();
-  for (size_t i = 0; i < m.p.size(); i++)
-    for (int c = 0; c < nch; c++) {
-      uint64_t v = 0;
-      memcpy(&v, d + (i * nch + c) * nb, nb);
-      m.p[i].c[c] = v;
-    }
-  return m;
-}
-
-bool same(const Image& img, const Model& m) {
-  if ((ll)img.get_width() != m.w || (ll)img.get_height() != m.h || img.get_has_alpha() != m.alpha || img.get_channel_width() != m.cw) return false;
-  auto r = m.raw();
-  return r.empty() || memcmp(img.get_data(), r.data(), r.size()) == 0;
-}
-
-const uint64_t ALPHAS[5] = {0x00, 0x01, 0x7F, 0xFE, 0xFF};
-const uint64_t KEY[3] = {0x11, 0x22, 0x33};
-
-// coordinate-coded canvas; `salt` separates dest (0), source (1) and mask (2) contents.
-// 8-bit samples replicated to the channel width, so every byte lane carries the code.
-Model pattern(int w, int h, bool alpha, int cw, int salt) {
-  Model m(w, h, alpha, cw);
-  uint64_t rep = mask_of(cw) / 0xFF;  // 0x0101..01
-  for (int y = 0; y < h; y++)
-    for (int x = 0; x < w; x++) {
-      uint64_t i = (uint64_t)y * w + x;
-      uint64_t r = (16 * i + 1 + 5 * salt) & 0xFF, g = (16 * i + 2 + 5 * salt) & 0xFF, b = (16 * i + 3 + 5 * salt) & 0xFF;
-      uint64_t a = ALPHAS[(x + 2 * y + salt) % 5];
-      if (salt == 0 && (x + 2 * y) % 3 == 1) { r = KEY[0]; g = KEY[1]; b = KEY[2]; }   // dest pixels in the key colour (mask_blit_dst)
-      if (salt == 1 && (x + y) % 3 == 0) { r = KEY[0]; g = KEY[1]; b = KEY[2]; }       // source pixels in the key colour (mask_blit)
-      if (salt == 2) {                                                                 // mask: white = skip
-        if ((x + y) % 2 == 0) r = g = b = 0xFF;
-        else if ((x + y) % 4 == 1) { r = 0xFF; g = 0xFF; b = 0xFE; }
-      }
-      m.write(x, y, r * rep, g * rep, b * rep, a * rep);
-    }
-  return m;
-}
-
-// ---------------------------------------------------------------------------------------------
-// rectangle family
-
-enum Variant { V_BLIT, V_MASK_KEY, V_MASK_DST, V_MASK_IMG, V_BLEND, V_BLEND_ALPHA, V_CUSTOM32, V_CUSTOM64, V_MASK_KEY32, V_MASK_DST32, NVARIANT };
-const char* vname[NVARIANT] = {"blit", "mask_blit(colour key)", "mask_blit_dst", "mask_blit(mask image)", "blend_blit", "blend_blit(source_alpha)",
-    "custom_blit(uint32)", "custom_blit(uint64)", "mask_blit(uint32 key)", "mask_blit_dst(uint32 key)"};
-const char* vkey[NVARIANT] = {"blit", "mask_blit_key", "mask_blit_dst", "mask_blit_image", "blend_blit", "blend_blit_alpha", "custom_blit32", "custom_blit64", "mask_blit_key32", "mask_blit_dst32"};
-const uint64_t BLEND_SOURCE_ALPHA = 0xC0;
-
-inline uint32_t pack(const Px& q) { return ((q.c[0] & 0xFF) << 24) | ((q.c[1] & 0xFF) << 16) | ((q.c[2] & 0xFF) << 8) | (q.c[3] & 0xFF); }
-
-inline void custom32(uint32_t& d, uint32_t s) { d = (d ^ (s * 0x9E3779B1u)) + 0x01020304u; }
-inline void custom64(uint64_t& dr, uint64_t& dg, uint64_t& db, uint64_t& da, uint64_t sr, uint64_t sg, uint64_t sb, uint64_t sa) {
-  dr = dr + 3 * sr + 1;
-  dg = dg ^ sg;
-  db = sb - db;
-  da = (da + sa) / 2;
-}
-
-enum Out { O_OK, O_OUT_OF_RANGE, O_RUNTIME, O_OTHER };
-const char* out_name[] = {"ok", "std::out_of_range", "std::runtime_error", "another exception"};
-
-struct Call {
-  ll x, y, w, h, sx, sy;
-};
-
-uint64_t g_custom_calls;  // how often the per-pixel callback ran
-
-Out call_real(int v, Image& d, const Image& s, const Image* mask, const Call& c) {
-  try {
-    switch (v) {
-      case V_BLIT: d.blit(s, c.x, c.y, c.w, c.h, c.sx, c.sy); break;
-      case V_MASK_KEY: d.mask_blit(s, c.x, c.y, c.w, c.h, c.sx, c.sy, KEY[0], KEY[1], KEY[2]); break;
-      case V_MASK_KEY32: d.mask_blit(s, c.x, c.y, c.w, c.h, c.sx, c.sy, (uint32_t)0x112233FFu); break;
-      case V_MASK_DST: d.mask_blit_dst(s, c.x, c.y, c.w, c.h, c.sx, c.sy, KEY[0], KEY[1], KEY[2]); break;
-      case V_MASK_DST32: d.mask_blit_dst(s, c.x, c.y, c.w, c.h, c.sx, c.sy, (uint32_t)0x11223300u); break;
-      case V_MASK_IMG: d.mask_blit(s, c.x, c.y, c.w, c.h, c.sx, c.sy, *mask); break;
-      case V_BLEND: d.blend_blit(s, c.x, c.y, c.w, c.h, c.sx, c.sy); break;
-      case V_BLEND_ALPHA: d.blend_blit(s, c.x, c.y, c.w, c.h, c.sx, c.sy, BLEND_SOURCE_ALPHA); break;
-      case V_CUSTOM32:
-        d.custom_blit(s, c.x, c.y, c.w, c.h, c.sx, c.sy, std::function<void(uint32_t&, uint32_t)>([](uint32_t& dc, uint32_t sc) { g_custom_calls++; custom32(dc, sc); }));
-        break;
-      case V_CUSTOM64:
-        d.custom_blit(s, c.x, c.y, c.w, c.h, c.sx, c.sy,
-            std::function<void(uint64_t&, uint64_t&, uint64_t&, uint64_t&, uint64_t, uint64_t, uint64_t, uint64_t)>(
-                [](uint64_t& dr, uint64_t& dg, uint64_t& db, uint64_t& da, uint64_t sr, uint64_t sg, uint64_t sb, uint64_t sa) { g_custom_calls++; custom64(dr, dg, db, da, sr, sg, sb, sa); }));
-        break;
-    }
-    return O_OK;
-  } catch (const std::out_of_range&) { return O_OUT_OF_RANGE;
-  } catch (const std::runtime_error&) { return O_RUNTIME;
-  } catch (...) { return O_OTHER; }
-}
-
-// colour rule of variant v for one affected pixel (8-bit channels).  Returns false when the pixel is left alone.
-inline bool colour_rule(int v, Model& out, ll dx, ll dy, const Px& d, const Px& s, uint64_t dmax) {
-  switch (v) {
-    case V_BLIT: {
-      // Image.cc: alpha 0 = skip, alpha 0xFF = copy, otherwise blend each channel (and alpha) with weight a/0xFF.
-      // (Image.hh: "the written pixels will have the same alpha as in the source image" holds for the copy case.)
-      uint64_t a = s.c[3];
-      if (a == 0) return false;
-      if (a == 0xFF) { out.write(dx, dy, s.c[0], s.c[1], s.c[2], a); return true; }
-      out.write(dx, dy, (a * s.c[0] + (0xFF - a) * d.c[0]) / 0xFF, (a * s.c[1] + (0xFF - a) * d.c[1]) / 0xFF,
-          (a * s.c[2] + (0xFF - a) * d.c[2]) / 0xFF, (a * a + (0xFF - a) * d.c[3]) / 0xFF);
-      return true;
-    }
-    case V_MASK_KEY:
-    case V_MASK_KEY32:
-      // source pixels in the transparent colour are not copied; alpha comes from the source
-      if (s.c[0] == KEY[0] && s.c[1] == KEY[1] && s.c[2] == KEY[2]) return false;
-      out.write(dx, dy, s.c[0], s.c[1], s.c[2], s.c[3]);
-      return true;
-    case V_MASK_DST:
-    case V_MASK_DST32:
-      // only dest pixels in the transparent colour are replaced
-      if (!(d.c[0] == KEY[0] && d.c[1] == KEY[1] && d.c[2] == KEY[2])) return false;
-      out.write(dx, dy, s.c[0], s.c[1], s.c[2], s.c[3]);
-      return true;
-    case V_BLEND: {
-      uint64_t sa = s.c[3];
-      if (sa == dmax) { out.write(dx, dy, s.c[0], s.c[1], s.c[2], sa); return true; }
-      if (sa == 0) return false;
-      out.write(dx, dy, (s.c[0] * sa + d.c[0] * (dmax - sa)) / dmax, (s.c[1] * sa + d.c[1] * (dmax - sa)) / dmax,
-          (s.c[2] * sa + d.c[2] * (dmax - sa)) / dmax, (sa * sa + d.c[3] * (dmax - sa)) / dmax);
-      return true;
-    }
-    case V_BLEND_ALPHA: {
-      uint64_t ea = (BLEND_SOURCE_ALPHA * s.c[3]) / dmax;
-      if (ea == dmax) { out.write(dx, dy, s.c[0], s.c[1], s.c[2], ea); return true; }
-      if (ea == 0) return false;
-      out.write(dx, dy, (s.c[0] * ea + d.c[0] * (dmax - ea)) / dmax, (s.c[1] * ea + d.c[1] * (dmax - ea)) / dmax,
-          (s.c[2] * ea + d.c[2] * (dmax - ea)) / dmax, d.c[3]);
-      return true;
-    }
-    case V_CUSTOM32: {
-      uint32_t dc = pack(d);
-      custom32(dc, pack(s));
-      out.write(dx, dy, (dc >> 24) & 0xFF, (dc >> 16) & 0xFF, (dc >> 8) & 0xFF, dc & 0xFF);
-      return true;
-    }
-    case V_CUSTOM64: {
-      uint64_t r = d.c[0], g = d.c[1], b = d.c[2], a = d.c[3];
-      custom64(r, g, b, a, s.c[0], s.c[1], s.c[2], s.c[3]);
-      out.write(dx, dy, r, g, b, a);
-      return true;
-    }
-  }
-  return false;
-}
-
-struct Expect {
-  Model canvas;           // expected dest after the call (when the call is expected to succeed)
-  vector<uint8_t> aff;    // per dest pixel: 1 = in the affected set
-  size_t naff = 0;
-  bool mask_covered = true;       // every affected pixel has a mask pixel (source coordinates)
-  bool mask_fits_request = true;  // mask >= requested extent (documented precondition)
-};
-
-// Declarative expectation.  `colour` = false: only the affected set is computed (wide channels).
-void expect_blit(int v, const Model& d, const Model& s, const Model* mask, const Call& c, bool colour, Expect& e) {
-  e.canvas.w = d.w; e.canvas.h = d.h; e.canvas.cw = d.cw; e.canvas.alpha = d.alpha;
-  e.canvas.p = d.p;
-  e.aff.assign(d.p.size(), 0);
-  e.naff = 0;
-  e.mask_covered = true;
-  ll w = c.w < 0 ? s.w : c.w, h = c.h < 0 ? s.h : c.h;
-  e.mask_fits_request = !mask || ((ll)mask->w >= w && (ll)mask->h >= h);
-  for (ll dy = 0; dy < d.h; dy++)
-    for (ll dx = 0; dx < d.w; dx++) {
-      ll ox = dx - c.x, oy = dy - c.y;
-      if (ox < 0 || ox >= w || oy < 0 || oy >= h) continue;
-      ll px = ox + c.sx, py = oy + c.sy;
-      if (!s.inside(px, py)) continue;
-      e.aff[(size_t)dy * d.w + dx] = 1;
-      e.naff++;
-      if (v == V_MASK_IMG) {
-        // the mask is indexed in source space; white = keep the destination
-        if (!mask->inside(px, py)) { e.mask_covered = false; continue; }
-        if (!colour) continue;
-        Px m = mask->read(px, py);
-        if (m.c[0] == 0xFF && m.c[1] == 0xFF && m.c[2] == 0xFF) continue;
-        Px sp = s.read(px, py);
-        e.canvas.write(dx, dy, sp.c[0], sp.c[1], sp.c[2], sp.c[3]);
-        continue;
-      }
-      if (!colour) continue;
-      colour_rule(v, e.canvas, dx, dy, d.read(dx, dy), s.read(px, py), d.maxv());
-    }
-}
-
-string call_str(int v, const Model& d, const Model& s, const Model* mask, const Call& c) {
-  string m = mask ? vf::fmt(", mask %dx%d", mask->w, mask->h) : "";
-  return vf::fmt("dest(%dx%d %s %d-bit).%s(source %dx%d %s%s; x=%lld, y=%lld, w=%lld, h=%lld, sx=%lld, sy=%lld)", d.w, d.h, d.alpha ? "rgba" : "rgb", d.cw, vname[v], s.w, s.h,
-      s.alpha ? "rgba" : "rgb", m.c_str(), c.x, c.y, c.w, c.h, c.sx, c.sy);
-}
-
-// Runs one blit on `dimg` (whose content is restored from draw first) and judges it.
-struct BlitCtx {
-  int v;
-  const Model* dpat;
-  const Model* spat;
-  const Model* mpat;
-  Image* dimg;
-  const Image* simg;
-  const Image* mimg;
-  vector<uint8_t> draw, sraw, got;
-  Expect e;
-  bool colour = true;
-  // outcome classes are counted locally and flushed once (a map lookup per case would dominate the run time)
-  enum { C_NOTHING, C_WHOLE, C_PARTIAL, C_MASK_SMALL, C_MASK_UNCOV_THROW, C_MASK_UNCOV_OK, NCLS };
-  uint64_t cls[NCLS] = {0, 0, 0, 0, 0, 0};
-  void flush(vf::Run& r) {
-    const char* names[NCLS] = {"clipped-to-nothing", "whole-rectangle", "partially-clipped", "mask-smaller-than-request:runtime_error", "mask-uncovered:runtime_error", "mask-uncovered:succeeded-untouched"};
-    for (int i = 0; i < NCLS; i++) {
-      if (cls[i]) r.hist[names[i]] += cls[i];
-      cls[i] = 0;
-    }
-  }
-  void prepare() {
-    draw = dpat->raw();
-    sraw = spat->raw();
-    got.resize(draw.size());
-  }
-};
-
-void judge_blit(vf::Run& r, BlitCtx& k, const Call& c) {
-  if (!k.draw.empty()) memcpy(k.dimg->get_data(), k.draw.data(), k.draw.size());
-  g_custom_calls = 0;
-  Out o = call_real(k.v, *k.dimg, *k.simg, k.mimg, c);
-  expect_blit(k.v, *k.dpat, *k.spat, k.mpat, c, k.colour, k.e);
-  const Expect& e = k.e;
-  // non-trivial: a non-empty rectangle was requested on non-empty canvases (whether or not clipping leaves anything of it)
-  {
-    ll rw = c.w < 0 ? k.spat->w : c.w, rh = c.h < 0 ? k.spat->h : c.h;
-    if (rw > 0 && rh > 0 && !k.dpat->p.empty() && !k.spat->p.empty()) r.nontriv();
-  }
-  const char* kk = vkey[k.v];
-  auto what = [&] { return call_str(k.v, *k.dpat, *k.spat, k.mpat, c); };
-  if (o == O_OUT_OF_RANGE) { r.fail(string(kk) + ":out_of_range-escapes", [&] { return what() + " threw std::out_of_range; rectangle operations must clip, not throw"; }); return; }
-  if (o == O_OTHER) { r.fail(string(kk) + ":unexpected-exception", [&] { return what() + " threw an exception that is neither runtime_error nor out_of_range"; }); return; }
-  if (!k.sraw.empty() && memcmp(k.simg->get_data(), k.sraw.data(), k.sraw.size()) != 0) { r.fail(string(kk) + ":source-modified", [&] { return what() + " changed the source image"; }); return; }
-  bool unchanged = k.draw.empty() || memcmp(k.dimg->get_data(), k.draw.data(), k.draw.size()) == 0;
-  if (o == O_RUNTIME) {
-    if (k.v == V_MASK_IMG && (!e.mask_fits_request || !e.mask_covered)) {
-      if (!unchanged) { r.fail(string(kk) + ":throws-after-writing", [&] { return what() + " threw runtime_error (mask too small) but had already modified the destination"; }); return; }
-      k.cls[e.mask_fits_request ? BlitCtx::C_MASK_UNCOV_THROW : BlitCtx::C_MASK_SMALL]++;
-      return;
-    }
-    r.fail(string(kk) + ":unexpected-runtime_error", [&] { return what() + " threw std::runtime_error"; });
-    return;
-  }
-  // succeeded: compare the whole destination buffer
-  if (k.v == V_MASK_IMG && !e.mask_covered) {
-    // no documented result; uncovered pixels must at least stay untouched (checked below through the model, which skips them)
-  }
-  if (!k.draw.empty()) {
-    e.canvas.to_raw(k.got.data());
-    const uint8_t* real = (const uint8_t*)k.dimg->get_data();
-    if (memcmp(real, k.got.data(), k.got.size()) != 0) {
-      // locate the first differing pixel and classify it
-      int bpp = (3 + k.dpat->alpha) * (k.dpat->cw / 8);
-      size_t px = 0;
-      bool found = false, off_rect = false;
-      for (size_t i = 0; i < k.dpat->p.size(); i++) {
-        if (memcmp(real + i * bpp, k.got.data() + i * bpp, bpp) == 0) continue;
-        if (!e.aff[i]) { px = i; found = true; off_rect = true; break; }
-        if (!found && k.colour) { px = i; found = true; }
-      }
-      if (found) {
-        Model after = model_of(*k.dimg);
-        r.fail(string(kk) + (off_rect ? ":touches-pixel-outside-clipped-rectangle" : ":wrong-pixel-inside-rectangle"), [&] {
-          return what() + vf::fmt(": pixel (%zu,%zu) %s; before %s, after %s, model %s", px % k.dpat->w, px / k.dpat->w,
-                              off_rect ? "is outside the clipped rectangle but changed" : "differs from the colour rule", k.dpat->dump().c_str(), after.dump().c_str(), e.canvas.dump().c_str());
-        });
-        return;
-      }
-    }
-  }
-  if ((k.v == V_CUSTOM32 || k.v == V_CUSTOM64) && g_custom_calls != e.naff) {
-    r.fail(string(kk) + ":callback-count", [&] { return what() + vf::fmt(": per-pixel callback ran %llu times, clipped rectangle has %zu pixels", (unsigned long long)g_custom_calls, e.naff); });
-    return;
-  }
-  if (k.v == V_MASK_IMG && !e.mask_covered) k.cls[BlitCtx::C_MASK_UNCOV_OK]++;
-  else if (e.naff == 0) k.cls[BlitCtx::C_NOTHING]++;
-  else if (e.naff == (size_t)std::min<ll>(c.w < 0 ? k.spat->w : c.w, 1 << 20) * (size_t)std::min<ll>(c.h < 0 ? k.spat->h : c.h, 1 << 20)) k.cls[BlitCtx::C_WHOLE]++;
-  else k.cls[BlitCtx::C_PARTIAL]++;
-}
-
-vector<std::pair<int, int>> mask_sizes(int sw, int sh, bool all) {
-  // per axis: one smaller, equal, one larger than the source (quick: smaller and equal on both axes)
-  vector<std::pair<int, int>> v;
-  int ws[3] = {std::max(sw - 1, 0), sw, sw + 1}, hs[3] = {std::max(sh - 1, 0), sh, sh + 1};
-  for (int i = 0; i < 3; i++)
-    for (int j = 0; j < 3; j++)
-      if (all || (i == j && i < 2)) v.push_back({ws[i], hs[j]});
-  return v;
-}
-
-// full six-parameter product for one (variant, sizes, alpha modes, channel width)
-void blit_product(vf::Run& r, int v, int dw, int dh, int sw, int sh, bool da, bool sa, int cw, bool all_masks, int margin) {
-  Model dpat = pattern(dw, dh, da, cw, 0), spat = pattern(sw, sh, sa, cw, 1);
-  Image dimg = make_image(dpat), simg = make_image(spat);
-  auto msz = v == V_MASK_IMG ? mask_sizes(sw, sh, all_masks) : vector<std::pair<int, int>>{{0, 0}};
-  for (auto [mw, mh] : msz) {
-    Model mpat = pattern(mw, mh, false, cw, 2);
-    Image mimg = make_image(mpat);
-    BlitCtx k;
-    k.v = v; k.dpat = &dpat; k.spat = &spat; k.mpat = v == V_MASK_IMG ? &mpat : nullptr;
-    k.dimg = &dimg; k.simg = &simg; k.mimg = &mimg;
-    k.colour = cw == 8;
-    k.prepare();
-    int wmax = std::max(dw, sw) + margin, hmax = std::max(dh, sh) + margin;
-    Call c;
-    for (c.x = -margin; c.x <= dw + margin; c.x++)
-      for (c.y = -margin; c.y <= dh + margin; c.y++)
-        for (c.sx = -margin; c.sx <= sw + margin; c.sx++)
-          for (c.sy = -margin; c.sy <= sh + margin; c.sy++)
-            for (c.w = -1; c.w <= wmax; c.w++)
-              for (c.h = -1; c.h <= hmax; c.h++) {
-                if (!r.take()) continue;
-                if (r.wants_desc()) r.desc(call_str(v, dpat, spat, k.mpat, c));
-                judge_blit(r, k, c);
-              }
-    k.flush(r);
-  }
-}
-
-const int BLIT_VARIANTS[8] = {V_BLIT, V_MASK_KEY, V_MASK_DST, V_MASK_IMG, V_BLEND, V_BLEND_ALPHA, V_CUSTOM32, V_CUSTOM64};
-
-}  // namespace
 
 // =============================================================================================
 // direct pixel access
-VF_SECTION(pixels, 4, 4, 120) {
+VF_SECTION(pixels, 8, 8, 120) {
   r.note("read_pixel/write_pixel");
   const uint64_t VAL[2][4] = {{0x0102030405060708ull, 0x1112131415161718ull, 0x2122232425262728ull, 0x3132333435363738ull},
       {~0x0102030405060708ull, ~0x1112131415161718ull, ~0x2122232425262728ull, ~0x3132333435363738ull}};
@@ -436,7 +26,10 @@ VF_SECTION(pixels, 4, 4, 120) {
       for (int alpha = 0; alpha < 2; alpha++)
         for (int cw : {8, 16, 32, 64}) {
           Model pat = pattern(w, h, alpha, cw, 0);
-          vector<ll> xs = {-(1ll << 31), -2, -1, 0, 1, w - 1, w, w + 1, 1ll << 31}, ys = {-(1ll << 31), -2, -1, 0, 1, h - 1, h, h + 1, 1ll << 31};
+          // boundary coordinates: around the canvas edge, around +-2^31 / +-2^32 (a check done in 32 bits would alias 2^32+k to the in-canvas k), +-2^63
+          const ll P31 = 1ll << 31, P32 = 1ll << 32, MAX = std::numeric_limits<ll>::max(), MIN = std::numeric_limits<ll>::min();
+          vector<ll> xs = {MIN, -P32 - 1, -P32, -P32 + 1, -P31 - 1, -P31, -2, -1, 0, 1, w - 1, w, w + 1, P31 - 1, P31, P32 - 1, P32, P32 + 1, P32 + w - 1, MAX};
+          vector<ll> ys = {MIN, -P32 - 1, -P32, -P32 + 1, -P31 - 1, -P31, -2, -1, 0, 1, h - 1, h, h + 1, P31 - 1, P31, P32 - 1, P32, P32 + 1, P32 + h - 1, MAX};
           for (ll x : xs)
             for (ll y : ys)
               for (int op = 0; op < 6; op++) {
@@ -486,7 +79,7 @@ VF_SECTION(pixels, 4, 4, 120) {
                 r.ok(op < 3 ? "inside:read" : "inside:written-and-read-back");
               }
         }
-  r.bound = "canvases 0..3 x 0..3 x alpha x {8,16,32,64} x coordinates {-2^31,-2,-1,0,1,n-1,n,n+1,2^31}^2 x 6 access forms";
+  r.bound = "canvases 0..3 x 0..3 x alpha x {8,16,32,64} x coordinates {-2^63,-2^32-1,-2^32,-2^32+1,-2^31-1,-2^31,-2,-1,0,1,n-1,n,n+1,2^31-1,2^31,2^32-1,2^32,2^32+1,2^32+n-1,2^63-1}^2 x 6 access forms";
 }
 
 // =============================================================================================
@@ -494,10 +87,12 @@ VF_SECTION(pixels, 4, 4, 120) {
 VF_SECTION(fill_rect, 16, 16, 120) {
   r.note("fill_rect");
   int smax = r.thorough() ? 8 : 4;
-  struct Col { uint64_t r, g, b, a; const char* name; };
+  struct Col { uint64_t r, g, b, a; const char* name; bool packed; };
   uint64_t ncls[3] = {0, 0, 0};
-  const Col cols[4] = {{0x11, 0x22, 0x33, 0xFF, "opaque"}, {0xF0, 0x40, 0x08, 0x80, "a=0x80"}, {0xFF, 0xFF, 0xFF, 0x01, "a=0x01"}, {0x12, 0x34, 0x56, 0x00, "a=0"}};
-  for (int cw : {8, 16})
+  // the last two go through the fill_rect(x, y, w, h, uint32_t 0xRRGGBBAA) overload
+  const Col cols[6] = {{0x11, 0x22, 0x33, 0xFF, "opaque", false}, {0xF0, 0x40, 0x08, 0x80, "a=0x80", false}, {0xFF, 0xFF, 0xFF, 0x01, "a=0x01", false}, {0x12, 0x34, 0x56, 0x00, "a=0", false},
+      {0x21, 0x32, 0x43, 0xFF, "packed opaque", true}, {0xF0, 0x40, 0x08, 0x7F, "packed a=0x7F", true}};
+  for (int cw : {8, 16, 32, 64})
     for (int W = 0; W <= smax; W++)
       for (int H = 0; H <= smax; H++)
         for (int alpha = 0; alpha < 2; alpha++) {
@@ -507,7 +102,8 @@ VF_SECTION(fill_rect, 16, 16, 120) {
           auto raw = pat.raw();
           vector<uint8_t> got(raw.size());
           Model exp;
-          for (int ci = 0; ci < (cw == 8 ? 4 : 1); ci++) {  // the translucent rule is only defined for 8-bit channels
+          for (int ci = 0; ci < 6; ci++) {
+            if (cw != 8 && ci != 0 && ci != 4) continue;  // the translucent rule is only defined for 8-bit channels
             const Col& col = cols[ci];
             for (ll x = -3; x <= W + 3; x++)
               for (ll y = -3; y <= H + 3; y++)
@@ -519,7 +115,10 @@ VF_SECTION(fill_rect, 16, 16, 120) {
                     if (r.wants_desc()) r.desc(what());
                     if (!raw.empty()) memcpy(img.get_data(), raw.data(), raw.size());
                     Out o = O_OK;
-                    try { img.fill_rect(x, y, w, h, col.r, col.g, col.b, col.a); } catch (const std::out_of_range&) { o = O_OUT_OF_RANGE; } catch (...) { o = O_OTHER; }
+                    try {
+                      if (col.packed) img.fill_rect(x, y, w, h, (uint32_t)((col.r << 24) | (col.g << 16) | (col.b << 8) | col.a));
+                      else img.fill_rect(x, y, w, h, col.r, col.g, col.b, col.a);
+                    } catch (const std::out_of_range&) { o = O_OUT_OF_RANGE; } catch (...) { o = O_OTHER; }
                     exp = pat;
                     size_t naff = 0;
                     for (ll dy = 0; dy < H; dy++)
@@ -559,7 +158,7 @@ VF_SECTION(fill_rect, 16, 16, 120) {
   if (ncls[0]) r.hist["clipped-to-nothing"] += ncls[0];
   if (ncls[1]) r.hist["whole-rectangle"] += ncls[1];
   if (ncls[2]) r.hist["partially-clipped"] += ncls[2];
-  r.bound = vf::fmt("every canvas 0..%d x 0..%d x alpha, x,y in [-3,size+3], w,h in [-1,size+4], 4 colours (opaque, a=0x80, a=1, a=0) for 8-bit; canvases 0..3 opaque for 16-bit", smax, smax);
+  r.bound = vf::fmt("every canvas 0..%d x 0..%d x alpha, x,y in [-3,size+3], w,h in [-1,size+4], 6 colours (opaque, a=0x80, a=1, a=0, and opaque / a=0x7F through the uint32 overload) for 8-bit; canvases 0..3 with the two opaque forms for 16/32/64-bit", smax, smax);
 }
 
 // =============================================================================================
@@ -598,6 +197,13 @@ VF_SECTION(blit_modes, 16, 16, 180) {
     for (int cw : {16, 32, 64})
       for (int da = 0; da < 2; da++) blit_product(r, v, 2, 1, 1, 2, da, da, cw, false, 1);
   }
+  // (b') dest and source of different channel widths (every ordered pair): geometry only
+  for (int v : BLIT_VARIANTS) {
+    r.note(string(vkey[v]) + "/mixed-widths");
+    for (int dcw : {8, 16, 32, 64})
+      for (int scw : {8, 16, 32, 64})
+        if (dcw != scw) blit_product(r, v, 2, 1, 1, 2, (dcw + scw) % 48 == 0, dcw < scw, dcw, false, 1, scw);
+  }
   // (c) sizes 4..8, one axis swept completely while the other takes five representative settings
   if (r.thorough()) {
     const ll rep[5][3] = {{0, -1, 0}, {-1, 2, 0}, {1, 3, -1}, {2, 5, 2}, {-2, 9, 1}};  // (pos, extent, source pos)
@@ -626,13 +232,17 @@ VF_SECTION(blit_modes, 16, 16, 180) {
           }
     }
   }
-  r.bound = string("10 variants (incl. uint32 colour-key overloads) x 4 alpha-mode combinations x sizes {1x2,2x1}x{1x2,3x1} full product with margin 1; wide channels 16/32/64 geometry-only") +
+  r.bound = string("13 variants (incl. uint32 colour-key overloads and blend_blit source_alpha 0x00/0x40/0xC0/0xFF) x 4 alpha-mode combinations x sizes {1x2,2x1}x{1x2,3x1} full product with margin 1; "
+                   "wide channels 16/32/64 and all 12 ordered pairs of different dest/source channel widths geometry-only") +
       (r.thorough() ? "; sizes 4..8 per axis: full (pos, extent, source pos) product on one axis x 5 representative settings of the other (per-axis, not a full product)" : "");
 }
 
 // extreme coordinates substituted into every parameter position, one and two at a time
-VF_SECTION(extremes, 4, 4, 120) {
-  const ll E[4] = {1ll << 31, -(1ll << 31), (1ll << 31) - 1, -((1ll << 31) - 1)};
+VF_SECTION(extremes, 16, 16, 120) {
+  // around 2^31 and 2^32 (32-bit truncation would alias 2^32+1 and -(2^32-1) to the in-canvas coordinate 1), and 2^61 (sums of two stay below 2^63)
+  const ll P31 = 1ll << 31, P32 = 1ll << 32, P61 = 1ll << 61;
+  const vector<ll> E = {P31, -P31, P31 - 1, -(P31 - 1), P32 - 1, P32, P32 + 1, -(P32 - 1), -P32, -(P32 + 1), P61, -P61};
+  const int NE = E.size();
   const Call bases[3] = {{0, 0, 3, 3, 0, 0}, {1, 1, 2, 2, 0, 1}, {-1, 0, -1, -1, 1, 1}};
   for (int v = 0; v < NVARIANT; v++) {
     r.note(string(vkey[v]) + "/extreme");
@@ -646,8 +256,8 @@ VF_SECTION(extremes, 4, 4, 120) {
       for (auto& b : bases)
         for (int i = 0; i < 6; i++)
           for (int j = i; j < 6; j++)
-            for (int ei = 0; ei < 4; ei++)
-              for (int ej = 0; ej < (i == j ? 1 : 4); ej++) {
+            for (int ei = 0; ei < NE; ei++)
+              for (int ej = 0; ej < (i == j ? 1 : NE); ej++) {
                 if (!r.take()) continue;
                 ll a[6] = {b.x, b.y, b.w, b.h, b.sx, b.sy};
                 a[i] = E[ei];
@@ -667,62 +277,69 @@ VF_SECTION(extremes, 4, 4, 120) {
     for (auto& b : fb)
       for (int i = 0; i < 4; i++)
         for (int j = i; j < 4; j++)
-          for (int ei = 0; ei < 4; ei++)
-            for (int ej = 0; ej < (i == j ? 1 : 4); ej++)
-              for (uint64_t a : {0xFFull, 0x80ull}) {
+          for (int ei = 0; ei < NE; ei++)
+            for (int ej = 0; ej < (i == j ? 1 : NE); ej++)
+              for (int form = 0; form < 3; form++) {
                 if (!r.take()) continue;
                 ll p[4] = {b[0], b[1], b[2], b[3]};
                 p[i] = E[ei];
                 if (j != i) p[j] = E[ej];
-                auto what = [&] { return vf::fmt("3x3 %s canvas: fill_rect(%lld,%lld,%lld,%lld, alpha %llx)", alpha ? "rgba" : "rgb", p[0], p[1], p[2], p[3], (unsigned long long)a); };
+                GOp op = form == 0 ? op_fill(p[0], p[1], p[2], p[3], 0x11, 0x22, 0x33, 0xFF, 0) : form == 1 ? op_fill(p[0], p[1], p[2], p[3], 0x11, 0x22, 0x33, 0x80, 0) : op_fill(p[0], p[1], p[2], p[3], 0x11, 0x22, 0x33, 0x7F, 2);
+                auto what = [&] { return vf::fmt("3x3 %s canvas: ", alpha ? "rgba" : "rgb") + op.name; };
                 if (r.wants_desc()) r.desc(what());
                 r.nontriv();
                 Image img = make_image(pat);
-                string o = vf::outcome([&] { img.fill_rect(p[0], p[1], p[2], p[3], 0x11, 0x22, 0x33, a); });
-                Model exp = pat;
-                for (ll dy = 0; dy < 3; dy++)
-                  for (ll dx = 0; dx < 3; dx++) {
-                    if (dx - p[0] < 0 || dx - p[0] >= p[2] || dy - p[1] < 0 || dy - p[1] >= p[3]) continue;
-                    Px d = pat.read(dx, dy);
-                    if (a == 0xFF) exp.write(dx, dy, 0x11, 0x22, 0x33, a);
-                    else exp.write(dx, dy, (a * 0x11 + (0xFF - a) * d.c[0]) / 0xFF, (a * 0x22 + (0xFF - a) * d.c[1]) / 0xFF, (a * 0x33 + (0xFF - a) * d.c[2]) / 0xFF, (a * a + (0xFF - a) * d.c[3]) / 0xFF);
-                  }
-                if (o != "ok") r.fail("fill_rect:extreme-coordinates-throw", [&] { return what() + " threw " + o; });
-                else if (!same(img, exp)) r.fail("fill_rect:extreme-coordinates-wrong-pixels", [&] { return what() + ": after " + model_of(img).dump() + ", model " + exp.dump(); });
+                Model m = pat;
+                string detail, fk = run_step(op, img, m, detail);
+                if (fk == "out_of_range-escapes" || fk == "unexpected-outcome") r.fail("fill_rect:extreme-coordinates-throw", [&] { return what() + ": " + detail; });
+                else if (!fk.empty()) r.fail("fill_rect:extreme-coordinates-wrong-pixels", [&] { return what() + ": " + detail; });
                 else r.ok("fill_rect-extreme");
               }
   }
   r.note("lines-text/extreme");
-  for (int prim = 0; prim < 4; prim++) {
+  // prim 0..2: draw_line, prim 3..5 horizontal, 6..8 vertical (x 3 call forms: colour, default alpha, uint32), 9..14 the six draw_text forms
+  for (int prim = 0; prim < 15; prim++) {
     Model pat = pattern(3, 3, true, 8, 0);
     const ll base[4][4] = {{0, 0, 2, 1}, {0, 2, 1, 0}, {1, 0, 2, 0}, {0, 0, 0, 0}};
-    int np = prim == 3 ? 2 : 4;
+    int fam = prim < 9 ? prim / 3 : 3, form = prim < 9 ? prim % 3 : prim - 9;
+    int np = fam == 3 ? 2 : 4;
     for (int i = 0; i < np; i++)
       for (int j = i; j < np; j++)
-        for (int ei = 0; ei < 4; ei++)
-          for (int ej = 0; ej < (i == j ? 1 : 4); ej++) {
+        for (int ei = 0; ei < NE; ei++)
+          for (int ej = 0; ej < (i == j ? 1 : NE); ej++) {
             if (!r.take()) continue;
-            ll p[4] = {base[prim][0], base[prim][1], base[prim][2], base[prim][3]};
+            ll p[4] = {base[fam][0], base[fam][1], base[fam][2], base[fam][3]};
             p[i] = E[ei];
             if (j != i) p[j] = E[ej];
-            const char* pn[4] = {"draw_line(x1,y1,x2,y2)", "draw_horizontal_line(x1,x2,y,dash)", "draw_vertical_line(x,y1,y2,dash)", "draw_text(x,y,\"A\")"};
-            auto what = [&] { return vf::fmt("3x3 rgba canvas: %s with (%lld,%lld,%lld,%lld)", pn[prim], p[0], p[1], p[2], p[3]); };
+            GOp op;
+            if (fam == 3) {
+              TextArgs t;
+              t.x = p[0]; t.y = p[1]; t.r = 1; t.g = 2; t.b = 3; t.a = 0xFF; t.br = 0x0A; t.bg = 0x0B; t.bb = 0x0C; t.ba = 0xFF; t.s = "A";
+              op = op_text(form, t);
+            } else {
+              if (p[3] < 0) p[3] = 0;  // negative dash lengths are a don't-care class
+              ll start = fam == 1 ? p[0] : p[1], end = fam == 1 ? p[1] : p[2];
+              if (fam != 0 && p[3] > 0 && ((start / p[3]) & 1) && std::min(p[3], end - start) > (1 << 16)) {
+                // the line starts inside a gap stretch of the dash pattern that is millions of pixels long: defined but not cheap
+                r.ok("axis line starting in a huge dash gap (not executed)");
+                continue;
+              }
+              op = op_line(fam, p[0], p[1], p[2], p[3], 1, 2, 3, 4, form);
+            }
+            auto what = [&] { return "3x3 rgba canvas: " + op.name; };
             if (r.wants_desc()) r.desc(what());
             r.nontriv();
             Image img = make_image(pat);
-            string o = vf::outcome([&] {
-              switch (prim) {
-                case 0: img.draw_line(p[0], p[1], p[2], p[3], 1, 2, 3, 4); break;
-                case 1: img.draw_horizontal_line(p[0], p[1], p[2], p[3] < 0 ? 0 : p[3], 1, 2, 3, 4); break;
-                case 2: img.draw_vertical_line(p[0], p[1], p[2], p[3] < 0 ? 0 : p[3], 1, 2, 3, 4); break;
-                case 3: img.draw_text(p[0], p[1], 0x010203FFu, 0x0A0B0CFFu, "A"); break;
-              }
-            });
-            if (o != "ok") { r.fail(string("extreme:") + (prim == 0 ? "draw_line" : prim == 1 ? "draw_horizontal_line" : prim == 2 ? "draw_vertical_line" : "draw_text") + "-throws", [&] { return what() + " threw " + o; }); continue; }
-            r.ok("line-text-extreme");
+            Model m = pat;
+            string detail, fk = run_step(op, img, m, detail);
+            const char* fn[4] = {"draw_line", "draw_horizontal_line", "draw_vertical_line", "draw_text"};
+            if (fk == "out_of_range-escapes" || fk == "unexpected-outcome") r.fail(string("extreme:") + fn[fam] + "-throws", [&] { return what() + ": " + detail; });
+            else if (!fk.empty()) r.fail(string("extreme:") + fn[fam] + "-wrong-pixels", [&] { return what() + ": " + detail; });
+            else r.ok("line-text-extreme");
           }
   }
-  r.bound = "10 blit variants x 2 alpha modes x 3 base calls x {+-2^31, +-(2^31-1)} substituted into 1 and 2 of the 6 parameters; same for fill_rect (4 parameters) and draw_line / axis lines / draw_text";
+  r.bound = "13 blit variants x 2 alpha modes x 3 base calls x {+-2^31, +-(2^31-1), 2^32-1, +-2^32, +-(2^32+1), -(2^32-1), +-2^61} substituted into 1 and 2 of the 6 parameters; same for fill_rect "
+            "(4 parameters, opaque / translucent / uint32 forms), draw_line and both axis lines (3 call forms each; marked pixels must lie on the ideal segment and carry the colour) and the 6 draw_text forms (per-pixel model)";
 }
 
 // =============================================================================================
@@ -909,42 +526,6 @@ VF_SECTION(lines, 16, 16, 180) {
 // whole-image transforms: identities, single applications vs model, deep copies, short histories
 namespace {
 
-bool g_invert_touches_alpha = true;  // library convention, probed once (see notes)
-
-Model m_reverse_h(const Model& m) { Model o = m; for (int y = 0; y < m.h; y++) for (int x = 0; x < m.w; x++) o.p[(size_t)y * m.w + x] = m.at(m.w - 1 - x, y); return o; }
-Model m_reverse_v(const Model& m) { Model o = m; for (int y = 0; y < m.h; y++) for (int x = 0; x < m.w; x++) o.p[(size_t)y * m.w + x] = m.at(x, m.h - 1 - y); return o; }
-Model m_invert(const Model& m) {
-  Model o = m;
-  for (auto& q : o.p) {
-    for (int c = 0; c < 3; c++) q.c[c] = m.maxv() - q.c[c];
-    if (m.alpha && g_invert_touches_alpha) q.c[3] = m.maxv() - q.c[3];
-  }
-  return o;
-}
-Model m_set_alpha(const Model& m, bool a) {
-  if (m.alpha == a) return m;
-  Model o = m;
-  o.alpha = a;
-  for (auto& q : o.p) q.c[3] = m.maxv();  // added channel is opaque; dropped channel reads as max_value
-  return o;
-}
-Model m_set_width(const Model& m, int nw) {
-  if (m.cw == nw) return m;
-  Model o = m;
-  o.cw = nw;
-  for (auto& q : o.p)
-    for (int c = 0; c < 4; c++) {
-      uint64_t v = q.c[c];
-      if (nw > m.cw) {  // Image.cc: "expand the channels by copying the now-high bits to the lower bits"
-        uint64_t out = 0;
-        for (int s = 0; s < nw; s += m.cw) out |= v << s;
-        q.c[c] = out;
-      } else q.c[c] = v >> (m.cw - nw);  // "preserve only the high bits"
-    }
-  if (!o.alpha) for (auto& q : o.p) q.c[3] = o.maxv();
-  return o;
-}
-
 const int NOPS = 20;
 const char* op_name[NOPS] = {"reverse_horizontal", "reverse_vertical", "invert", "set_has_alpha(true)", "set_has_alpha(false)", "set_channel_width(8)", "set_channel_width(16)",
     "set_channel_width(32)", "set_channel_width(64)", "fill_rect(-1,1,3,2,opaque)", "write_pixel(1,1)", "draw_horizontal_line(0,2,0)", "draw_vertical_line(2,0,2)", "draw_line(0,0,2,2)",
@@ -1031,12 +612,7 @@ string canon(const Model& m) {
 VF_SECTION(transforms, 8, 8, 120) {
   Fixture fx;
   {
-    // probe the one convention the statement leaves open: does invert() also invert the alpha channel?
-    Model one = pattern(1, 1, true, 8, 0);
-    one.p[0].c[3] = 0x10;
-    Image i1 = make_image(one);
-    i1.invert();
-    g_invert_touches_alpha = model_of(i1).p[0].c[3] != 0x10;
+    probe_invert_convention();
     r.notes.push_back(string("invert() on an rgba image ") + (g_invert_touches_alpha ? "inverts" : "keeps") + " the alpha channel (convention probed on a 1x1 image, then required everywhere)");
   }
   r.note("transform-identities");
